@@ -19,10 +19,11 @@ What IS proved:
   renderings of single good trees (both directions, all inputs), and the tree is unique;
 * `text_lines` — the text ↔ lines conversion used by the driver loses nothing;
 * `select_pair`, `select_inherited_pair`, `union_pair` — for the SELECT core, header count = number of
-  children printed, for every combination of clauses, under the AST invariants `WfSel` / `WfUnion`
-  (checked by the harness on every AST `Parse` returns; the `_needs_` theorems show they are necessary —
-  `Parse` DOES violate `WfUnion`: reported as a finding; the inherited-WITH printer used to be off by two
-  with DISTINCT ON, found by this model and repaired in /repo 6d65b7e79).
+  children printed, for every combination of clauses; the SELECT pair under the AST invariant `WfSel`
+  (checked by the harness on every AST `Parse` returns, never violated; the `_needs_` theorems show it is
+  necessary), the union pair unconditionally.  Two defects found through these theorems' hypotheses were
+  repaired in /repo: DISTINCT ON under an inherited WITH (6d65b7e79) and doubled union-level SETTINGS
+  (7b64ed643, replayed by `union_old_count_defect`).
 -/
 namespace DC.Props.C04
 open DC DC.Spec.Tree DC.Model.ExplainSelect
@@ -60,8 +61,13 @@ theorem select_inherited_pair (n : SelShape) (h : WfSel n = true) (hw : n.withN 
   count_eq_emit_select_inherited n h hw
 
 /-- SelectWithUnionQuery: `countSelectUnionChildren` = number of nodes printed beneath the header. -/
-theorem union_pair (u : UnionShape) (h : WfUnion u = true) : countUnion u = (emitUnion u).length :=
-  count_eq_emit_union u h
+theorem union_pair (u : UnionShape) : countUnion u = (emitUnion u).length :=
+  count_eq_emit_union u
+
+/-- Replay of the defect repaired by /repo 7b64ed643: the former count announced 3 children where 4 are
+printed, on a shape `Parse` produces (`SELECT 1 SETTINGS a=1 SETTINGS b=2 FORMAT JSON SETTINGS c=3`). -/
+theorem union_old_count_defect : countUnionOld badUnion1 = 3 ∧ (emitUnion badUnion1).length = 4 :=
+  old_union_needs_one_side
 
 /-- non-vacuity: a two-line tree is accepted, a child below a count-less line is not -/
 example : check [[65] ++ suffix [49], [32, 66]] = true := by
@@ -71,6 +77,6 @@ example : check [[65] ++ suffix [49], [32, 66]] = true := by
 example : check [[65], [32, 66]] = false := by decide
 example : ∃ n, WfSel n = true ∧ countSel n = 6 :=
   ⟨⟨0, true, false, false, true, 1, false, false, false, 0, 1, 0, false, false, true, 0, false, 0, false, false, 0⟩, by decide⟩
-example : ∃ u, WfUnion u = false ∧ countUnion u ≠ (emitUnion u).length := ⟨badUnion1, by decide⟩
+example : countUnion badUnion1 = 4 := by decide
 
 end DC.Props.C04
